@@ -59,7 +59,10 @@ def permute(labels, order):
     return [labels[(i + 1) % len(labels)] for i in range(len(labels))]
 
 
-def encode(q, enc, order, labels):
+ROWSCALE = {"blue": 2.0, "green": 0.5, "red": 5.0}
+
+
+def encode(q, enc, order, labels, rows="unit"):
     if enc == "scalar":
         return SCALAR[q]
     keys = permute(labels, order)
@@ -69,6 +72,8 @@ def encode(q, enc, order, labels):
     if q == "polarisation":
         arr = np.array([list(v) + [0.0] for v in vals], dtype=float)
         arr = arr / np.sqrt((arr ** 2).sum(1))[:, None]
+        if rows == "as_given":       # rows of any length: (2, 2, 0)/sqrt2, (0, .5, 0), (5, 0, 0)
+            arr = arr * np.array([ROWSCALE[k] for k in keys])[:, None]
         return xr.DataArray(arr, dims=["illumination", "vector"],
                             coords={"illumination": keys, "vector": ["x", "y", "z"]})
     return xr.DataArray(np.array(vals), dims=["illumination"], coords={"illumination": keys})
@@ -79,16 +84,21 @@ def run(ctx):
     rng = random.Random(ctx.seed)
     ctx.rule = ("TLC enumerates all member-kind sequences of 1-6 spheres, 7 polarisation classes and all "
                 "2-3 channel layouts (5 quantities x scalar/dict/labelled array x key orders: 16906); "
-                "quick samples 250 layouts; distinct = state; non-trivial = >= 2 members / non-unit "
+                "quick samples 250 layouts and 100 of the collections of 4-6 members; distinct = state; non-trivial = >= 2 members / non-unit "
                 "polarisation / some key order differs from sorted")
-    ctx.assumptions = ["labelled-array polarisations are passed normalised (HoloPy takes labelled arrays as is)",
+    ctx.assumptions = ["labelled-array polarisations are passed with unit rows and with rows of lengths 2, 0.5, 5 (only the direction may count)",
                        "solver calls observed through a logging subclass of Mie passed as theory="]
     det = detector_grid(5, 0.31)
     pts = detector_points(x=np.array([0.2, 1.1, -0.8]), y=np.array([0.0, 0.9, 1.4]), z=0.0)
 
     # ---------------- collections ------------------------------------------------------------
     g = ctx.tlc_graph("Superpose", "Superpose_collection.cfg")
-    for st in g.states.values():
+    coll_states = list(g.states.values())
+    if quick:       # every collection of up to three members, a seeded sample of the larger ones
+        small = [st for st in coll_states if len(st["req"]["members"]) <= 3]
+        large = [st for st in coll_states if len(st["req"]["members"]) > 3]
+        coll_states = small + rng.sample(large, 100)
+    for st in coll_states:
         members = st["req"]["members"]
         k = len(members)
         sph = []
@@ -96,18 +106,22 @@ def run(ctx):
             c = (0.9 * math.cos(1.1 * i) + 0.6, 0.9 * math.sin(1.1 * i) + 0.6, 5.0 + 0.7 * i)
             if kind == "uniform":
                 sph.append(Sphere(n=1.5 + 0.02 * i, r=0.3 + 0.03 * i, center=c))
+            elif kind == "twin":        # identical particles, each at its own place and depth
+                sph.append(Sphere(n=1.55, r=0.33, center=c))
             else:
                 sph.append(Sphere(n=[1.6, 1.42 + 0.01 * i], r=[0.2, 0.36], center=c))
         ctx.case(("collection", members), nontrivial=k >= 2)
-        for name, th, d in (("Mie", Mie(), det), ("MieLens", MieLens(lens_angle=0.8), det), ("Mie/points", Mie(), pts)):
+        # one theory object images the whole collection; every member on its own gets a fresh one
+        for name, mk, d in (("Mie", Mie, det), ("MieLens", lambda: MieLens(lens_angle=0.8), det), ("Mie/points", Mie, pts)):
             if name == "MieLens" and "layered" in members:
                 continue        # the analytic lens theory handles homogeneous spheres only
-            if quick and name != "Mie" and (k + len([m for m in members if m == "layered"])) % 3 != 0:
+            ntw = len([m for m in members if m == "twin"])
+            if quick and name != "Mie" and (k + len([m for m in members if m == "layered"])) % 3 != 0 and not (ntw >= 2 and k <= 3):
                 continue
             try:
                 coll = Spheres(sph, warn=False) if k > 1 else Spheres([sph[0]], warn=False)
-                total = calc_field(d, coll, illum_polarization=(0.6, 0.8), theory=th, **OPT).values
-                parts = sum(calc_field(d, s, illum_polarization=(0.6, 0.8), theory=th, **OPT).values for s in sph)
+                total = calc_field(d, coll, illum_polarization=(0.6, 0.8), theory=mk(), **OPT).values
+                parts = sum(calc_field(d, s, illum_polarization=(0.6, 0.8), theory=mk(), **OPT).values for s in sph)
                 dd = quant.reldiff(total, parts)
             except Exception as e:
                 ctx.violation("collection/%s/exception" % name, {"members": members, "exc": repr(e)})
@@ -159,12 +173,12 @@ def run(ctx):
         rq = st["req"]
         labels = ["green", "red"] if rq["nch"] == 2 else ["blue", "green", "red"]
         enc, order = rq["enc"], rq["order"]
-        ctx.case(("channels", rq["nch"], tuple(sorted(enc.items())), tuple(sorted(order.items()))),
-                 nontrivial=any(v != "sorted" for v in order.values()))
+        ctx.case(("channels", rq["nch"], tuple(sorted(enc.items())), tuple(sorted(order.items())), rq["rows"]),
+                 nontrivial=any(v != "sorted" for v in order.values()) or rq["rows"] != "unit")
         mdet = detector_grid(4, 0.3, extra_dims={"illumination": permute(labels, order["wavelength"])})
         try:
             wl = encode("wavelength", enc["wavelength"], order["wavelength"], labels)
-            pol = encode("polarisation", enc["polarisation"], order["polarisation"], labels)
+            pol = encode("polarisation", enc["polarisation"], order["polarisation"], labels, rq["rows"])
             sca = encode("scaling", enc["scaling"], order["scaling"], labels)
             n = encode("index", enc["index"], order["index"], labels)
             r = encode("radius", enc["radius"], order["radius"], labels)
@@ -203,7 +217,7 @@ def run(ctx):
         if bad is None and sorted(calls) != sorted(want_calls):
             bad = ("solver_calls", {"impl": sorted(calls), "spec": sorted(want_calls)})
         if bad:
-            ctx.violation("channels/%s" % bad[0], dict(bad[1], nch=rq["nch"], enc=enc, order=order))
+            ctx.violation("channels/%s" % bad[0], dict(bad[1], nch=rq["nch"], enc=enc, order=order, rows=rq["rows"]))
         else:
             ctx.trace_ok()
     ctx.sample({"mode": "channels", "nch": rq["nch"], "encodings": dict(enc), "key_orders": dict(order)})
